@@ -134,6 +134,12 @@ func (p *H264Payloader) Payload(mtu uint16, payload []byte) [][]byte { //nolint:
 				out := make([]byte, len(stapANalu))
 				copy(out, stapANalu)
 				payloads = append(payloads, out)
+			} else {
+				// The aggregate does not fit into one packet: send the parameter
+				// sets on their own (fragmented if needed) instead of dropping them.
+				single := &H264Payloader{DisableStapA: true}
+				payloads = append(payloads, single.Payload(mtu, p.spsNalu)...)
+				payloads = append(payloads, single.Payload(mtu, p.ppsNalu)...)
 			}
 
 			p.spsNalu = nil
